@@ -188,10 +188,24 @@ fn fill_thread_stack(
     thread.stack.memory.rva = buffer.position() as u32;
 
     if let Ok((valid_stack_ptr, stack_len)) = dumper.get_stack_info(stack_ptr) {
-        let stack_len = if let MaxStackLen::Len(max_stack_len) = max_stack_len {
-            min(stack_len, max_stack_len)
-        } else {
-            stack_len
+        let (valid_stack_ptr, stack_len) = match max_stack_len {
+            MaxStackLen::Len(max_stack_len) if stack_len > max_stack_len => {
+                // Only `max_stack_len` bytes are kept. Like Breakpad, skip whole
+                // chunks of that length at the start of the page so that the chunk
+                // we keep is the one that contains the stack pointer, rather than
+                // the (usually unused) bytes below it.
+                let sp_distance = min(stack_ptr.saturating_sub(valid_stack_ptr), stack_len - 1);
+                let skipped = if max_stack_len > 0 {
+                    sp_distance / max_stack_len * max_stack_len
+                } else {
+                    0
+                };
+                (
+                    valid_stack_ptr + skipped,
+                    min(max_stack_len, stack_len - skipped),
+                )
+            }
+            _ => (valid_stack_ptr, stack_len),
         };
 
         let mut stack_bytes = PtraceDumper::copy_from_process(
